@@ -9,10 +9,46 @@ items of any size, every indent, every item.
 namespace A2l.Tree
 
 /-- the text one tagged item contributes (definition in Lemmas/TreeWriter.lean): leading line breaks, optional
-    `/begin`, tag, body, optional `/end` tag -/
+    `/begin`, tag, body, optional `/end` tag behind the white space for the end offset the writer uses (`endOffOf`) -/
 theorem chunk_def (indent : Nat) (item : TagInfo) : chunk indent item =
   addWhitespace indent item.startOff ++ (if item.isBlock then "/begin ".toList else []) ++ item.tag ++ item.text ++
-    (if item.isBlock then addWhitespace indent item.endOff ++ "/end ".toList ++ item.tag else []) := rfl
+    (if item.isBlock then addWhitespace indent (endOffOf item.endOff item.text) ++ "/end ".toList ++ item.tag
+     else []) := rfl
+
+/-- the end offset the writer uses (`writer.rs`, `add_group`): the recorded one, except that 0 becomes 1 if the
+    item's text ends inside a `//` comment (the comment would swallow the `/end`) -/
+theorem endOffOf_def (endOff : Nat) (text : List Char) :
+    endOffOf endOff text = if endOff = 0 ∧ endsInLineComment text then 1 else endOff := rfl
+
+/-- `ends_in_line_comment` scans the whole text, starting outside of strings and comments: is the state behind it
+    "inside a `//` comment"? (`lcScan` in Model/Tree.lean is the loop of the Rust function, state for state) -/
+theorem endsInLineComment_def (text : List Char) :
+    endsInLineComment text = (lcScan .outside text == .lineComment) := rfl
+
+/-- the end offset is the recorded one unless it is 0 behind a line comment -/
+theorem endOffOf_of_pos (endOff : Nat) (text : List Char) (h : endOff ≠ 0) : endOffOf endOff text = endOff := by
+  simp [endOffOf, h]
+
+theorem endOffOf_of_no_line_comment (endOff : Nat) (text : List Char) (h : endsInLineComment text = false) :
+    endOffOf endOff text = endOff := by
+  simp [endOffOf, h]
+
+/-- **`/end` behind a line comment starts on a new line**: for a block item whose text ends in a `//` comment, the
+    white space written between the text and `/end` starts with a line break, whatever the recorded end offset is -/
+theorem end_behind_line_comment_newline (indent : Nat) (item : TagInfo) (hb : item.isBlock = true)
+    (hc : endsInLineComment item.text = true) :
+    ∃ ws rest, chunk indent item =
+        addWhitespace indent item.startOff ++ "/begin ".toList ++ item.tag ++ item.text ++ ws ++ "/end ".toList ++ item.tag ∧
+      ws = addWhitespace indent (endOffOf item.endOff item.text) ∧ ws = '\n' :: rest ∧ 1 ≤ endOffOf item.endOff item.text := by
+  have h1 : 1 ≤ endOffOf item.endOff item.text := by
+    unfold endOffOf
+    by_cases h0 : item.endOff = 0
+    · simp [h0, hc]
+    · simp [h0]; omega
+  obtain ⟨n, hn⟩ : ∃ n, endOffOf item.endOff item.text = n + 1 := ⟨endOffOf item.endOff item.text - 1, by omega⟩
+  refine ⟨_, List.replicate n '\n' ++ (List.replicate indent [' ', ' ']).flatten, ?_, rfl, ?_, h1⟩
+  · simp [chunk, hb]
+  · simp [addWhitespace, hn, List.replicate_succ]
 
 /-- items that the plain-concatenation reading applies to (definition in Lemmas/TreeWriter.lean): no comments and no
     position restrictions in the group (comments only change the line breaks of their successor, restricted items are
@@ -130,5 +166,29 @@ example : Plain [sampleItem] := by
   simp only [List.mem_singleton] at hx
   subst hx
   exact ⟨rfl, rfl⟩
+
+
+/-- a block whose content ends in a line comment, recorded end offset 0: `/end` is written on a new line -/
+def sampleCmtItem : TagInfo :=
+  { isComment := false, tag := "A".toList, uid := 3, line := 7, startOff := 1, endOff := 0,
+    isBlock := true, text := " x // note".toList, pos := none, included := false }
+example : chunk 0 sampleCmtItem = "\n/begin A x // note\n/end A".toList := by decide +kernel
+example : chunk 0 { sampleCmtItem with text := " x".toList } = "\n/begin A x /end A".toList := by decide +kernel
+
+/-! ## `ends_in_line_comment` on examples -/
+example : endsInLineComment "  // note".toList = true := by decide +kernel
+example : endsInLineComment "FORMAT \"http://x\"".toList = false := by decide +kernel
+example : endsInLineComment "/* a // b */ X".toList = false := by decide +kernel
+example : endsInLineComment "X /* c */ // y".toList = true := by decide +kernel
+example : endsInLineComment "a\n// c\nb".toList = false := by decide +kernel
+example : endsInLineComment "/* a\n \" */ // c".toList = true := by decide +kernel
+example : endsInLineComment "/* a\n // b */".toList = false := by decide +kernel
+example : endsInLineComment "a // c\nb".toList = false := by decide +kernel
+example : endsInLineComment "x \"a // b\"".toList = false := by decide +kernel
+example : endsInLineComment "a\n// c".toList = true := by decide +kernel
+example : endsInLineComment "/*/ // x".toList = false := by decide +kernel
+example : endsInLineComment "\"a\\\" // x".toList = false := by decide +kernel
+example : endsInLineComment "/* open".toList = false := by decide +kernel
+example : endsInLineComment "x /".toList = false := by decide +kernel
 
 end A2l.Tree
